@@ -38,6 +38,7 @@ func raceWorker(repo string) int {
 	renderTimeout = 10 * time.Minute // the detector slows rendering 5-20x
 	r := rng.New(uint64(len(docs)))
 	enc := json.NewEncoder(os.Stdout)
+	rn := &runner{repo: repo}
 	for pos := 0; pos < len(docs); {
 		n := []int{2, 8}[r.Intn(2)]
 		if pos+n > len(docs) {
@@ -51,7 +52,7 @@ func raceWorker(repo string) int {
 			wg.Add(1)
 			go func(k int) {
 				defer wg.Done()
-				got[k] = renderTrace(group[k].HTML, nil, repo)
+				got[k] = renderTrace(group[k].HTML, rn.fonts(k), repo)
 			}(k)
 		}
 		wg.Wait()
